@@ -225,7 +225,7 @@ func init() {
 		Shards: shards(4, 16),
 		Meta: func(tier string) rt.Meta {
 			return rt.Meta{Level: "fault_enumeration", MinEvals: 300, MinDistinct: 20, Exhaustive: true,
-				Rule:        "for every (function, source fs, destination fs, size, mode) scenario - modes include bits a umask of 022 would clear, and in one scenario in three the destination already exists, longer and with other permission bits -: pass 1 records the sequence of FailFS consultations of an unfailed run and checks the post-condition by reading back through the base file systems; pass 2 re-runs the scenario once per index of that sequence with exactly that consultation failing (exhaustive single-fault enumeration, both sides). A nil error must imply equal bytes, equal permission bits and the right digest; a failure injected into open/read/write/sync/stat/chmod/close(dst) must yield a non-nil error. In half of the unfailed runs a second copy is started from inside the failure callback right before the first write to the destination (two copies overlapping on one goroutine): both destinations must be right. Plus files of 3 MiB (thorough 1, 3, 8 MiB, odd sizes) for every (function, source, destination) with faults at a sample of the consultations. Signature = function | fs pair | injected primitive | error-or-not; non-trivial = a fault was injected.",
+				Rule:        "for every (function, source fs, destination fs, size, mode) scenario - modes include bits a umask of 022 would clear, and in one scenario in three the destination already exists, longer and with other permission bits -: pass 1 records the sequence of FailFS consultations of an unfailed run and checks the post-condition by reading back through the base file systems; pass 2 re-runs the scenario once per index of that sequence with exactly that consultation failing (exhaustive single-fault enumeration, both sides). A nil error must imply equal bytes, equal permission bits and the right digest; a failure injected into open/read/write/sync/stat/chmod/close(dst) must yield a non-nil error. In half of the unfailed runs a second copy is started from inside the failure callback right before the first write to the destination (two copies overlapping on one goroutine): both destinations must be right. Plus files of 3 MiB (thorough 1, 3, 8 MiB, odd sizes) for every (function, source, destination) with faults at a sample of the consultations. Windows-typed MemFS/OrefaFS destinations and sources (other default modes) in a worker of the avfs_setostype build. Signature = function | fs pair | injected primitive | error-or-not; non-trivial = a fault was injected.",
 				Assumptions: []string{"a failure of closing the source is not in the property's list: only the post-condition is checked for it", "OsFS legs run in a harness-built directory on tmpfs"}}
 		},
 		OSShards: 1,
